@@ -139,6 +139,8 @@ def check(ctx):
     check_dispatch(ctx, rule_prefix="R6.", want_roles=False)
     from ..dtypes import check_dtypes
     check_dtypes(ctx, rule="R7-double-precision")
+    from ..dtypes import check_borrowed_dtype
+    check_borrowed_dtype(ctx, "R8-channel-buffers-keep-their-dtype", ("speckit/systems.py",), floor=3)
     ctx.need("ltf-call configurations", sum(1 for o in ctx.obs if o["rule"] == "R4-one-configuration"), 7)
     ctx.trust("E4 partial evaluation of __getattr__ (cells Gxx, Gyy, Gxy, GyySx)", "sympy.solve / numpy.linalg.solve return the exact solution of a square linear system (Cramer)",
               "numpy.linalg.pinv(T) = T^-1 for invertible T", "Schur complement of a positive semi-definite Hermitian matrix lies in [0, S00], vanishes when the last row is a combination of the others, "
